@@ -48,6 +48,20 @@ RadiiAgree(A, s1, s2, tol) ==
                                   \/ (Abs(s1.radii[k][1] - s2.radii[k][1]) <= tol + 2
                                       /\ Abs(s1.radii[k][2] - s2.radii[k][2]) <= tol + 2))
 
+(* a NON-circular arc (x-axis-rotation 0) under an isometry whose linear part is a quarter turn or an   *)
+(* axis mirror: the image ellipse has the same radii, swapped exactly when the map swaps the axes.  The *)
+(* target may spell it with rotation 0 or 90 (90 = radii read the other way round).                     *)
+NearUnit(v) == Abs(v) <= 20 \/ Abs(Abs(v) - SA) <= 20
+AxisMap(A) == Isometry(A) /\ \A i \in 1..4 : NearUnit(A[i])
+SwapsAxes(A) == Abs(A[1]) <= 20
+EllipseAgree(A, s1, s2, tol) ==
+  ~AxisMap(A) \/ Len(s1.radii) # Len(s2.radii) \/
+     \A k \in 1..Len(s1.radii) :
+        \/ s1.radii[k][1] = s1.radii[k][2] \/ s1.rots[k] # 0 \/ s2.rots[k] \notin {0, 90}
+        \/ LET e2 == IF s2.rots[k] = 0 THEN s2.radii[k] ELSE <<s2.radii[k][2], s2.radii[k][1]>>
+                e1 == IF SwapsAxes(A) THEN <<s1.radii[k][2], s1.radii[k][1]>> ELSE s1.radii[k]
+           IN Abs(e1[1] - e2[1]) <= tol + 2 /\ Abs(e1[2] - e2[2]) <= tol + 2
+
 (* arc flags are not coordinates either: the large-arc flag is invariant, the sweep flag flips exactly  *)
 (* under orientation-reversing maps (negative determinant) - no tolerance applies to them              *)
 FlagsAgree(A, s1, s2) ==
@@ -107,6 +121,7 @@ Judge(c) ==
   ELSE IF ~MapsOnto(c.A, c.s1, c.s2, c.tol) THEN "BAD:reported-transform-does-not-map-s1-onto-s2"
   ELSE IF ~RadiiAgree(c.A, c.s1, c.s2, c.tol) THEN "BAD:reported-transform-changes-arc-radii"
   ELSE IF ~FlagsAgree(c.A, c.s1, c.s2) THEN "BAD:reported-transform-maps-arcs-onto-other-arcs"
+  ELSE IF ~EllipseAgree(c.A, c.s1, c.s2, c.tol) THEN "BAD:reported-transform-does-not-turn-the-ellipse-axes"
   ELSE IF c.expect = "identity" /\ ~IsIdentity(c.A) THEN "BAD:identical-shapes-not-identity"
   ELSE "ok:sound"
 
